@@ -132,6 +132,29 @@ inductive Ev
   | hello (n : Name)
   deriving Repr, DecidableEq
 
+/-- the kinds of `io.ReadWriter` a session can be created on -/
+inductive ConnKind
+  /-- a plain `io.ReadWriter` (wrapped by `newConn`) -/
+  | plainRW
+  /-- a `net.Conn` in clear text -/
+  | netConn
+  /-- a clear-text `net.Conn` wrapper that has a `ConnectionState()` method (a byte counter, a
+  logging connection): it satisfies the `tlsConn` interface but is not TLS -/
+  | stateMethod
+  /-- a real `*tls.Conn` whose configuration names the server `n` -/
+  | tlsConn (n : Name)
+  deriving Repr, DecidableEq
+
+/-- `negotiateSession`: only a `*tls.Conn` makes a session start with `Secure` set -/
+def ConnKind.startsSecure : ConnKind → Bool
+  | .tlsConn _ => true
+  | _ => false
+
+/-- the server name of the connection's own TLS configuration, if it is a TLS connection -/
+def ConnKind.name : ConnKind → Option Name
+  | .tlsConn n => some n
+  | _ => none
+
 /-- what a session is created with besides the negotiator: the domain of its own address and
 the STARTTLS feature value (its closure variable: `none` for `StartTLS(nil)`) -/
 structure Env where
@@ -143,6 +166,8 @@ structure Env where
   server name of the default TLS configuration depends on the local address only. -/
   remote : Nat
   captured : Option Name
+  /-- the connection handed to `NewSession` -/
+  conn : ConnKind
   deriving Repr
 
 structure Sess where
@@ -441,9 +466,10 @@ structure Input where
   oracle : List (Nat × NegRes)
 
 def init (env : Env) (state0 : Mask) (i : Input) : Sess :=
-  { state := state0, tls := false, hs := false, buf := [], clear := i.clear, prot := i.prot,
+  { state := if env.conn.startsSecure then state0 ||| Secure else state0,
+    tls := env.conn.startsSecure, hs := false, buf := [], clear := i.clear, prot := i.prot,
     oracle := i.oracle, negotiated := [], doRestart := true, first := true,
-    domain := env.domain, captured := env.captured, sni := none, trace := [] }
+    domain := env.domain, captured := env.captured, sni := env.conn.name, trace := [] }
 
 /-- a whole `NewSession` call of an initiator; the trace is returned oldest first -/
 def run (cfg : Cfg) (env : Env) (state0 : Mask) (i : Input) (fuel : Nat) : List Ev × Outcome :=
@@ -462,6 +488,7 @@ structure SessionSpec where
   cfg : Cfg
   domain : Nat
   remote : Nat
+  conn : ConnKind
   state0 : Mask
   input : Input
   fuel : Nat
@@ -470,8 +497,8 @@ structure SessionSpec where
 def history : Option Name → List SessionSpec → List (List Ev × Outcome)
   | _, [] => []
   | cap, x :: rest =>
-    run x.cfg ⟨x.domain, x.remote, cap⟩ x.state0 x.input x.fuel ::
-      history (capturedAfter x.cfg ⟨x.domain, x.remote, cap⟩ x.state0 x.input x.fuel) rest
+    run x.cfg ⟨x.domain, x.remote, cap, x.conn⟩ x.state0 x.input x.fuel ::
+      history (capturedAfter x.cfg ⟨x.domain, x.remote, cap, x.conn⟩ x.state0 x.input x.fuel) rest
 
 /-! ### the server name offered by a reused feature value -/
 
